@@ -4,6 +4,7 @@ CONSTANTS
   Modes = {"impl"}
   MaxHops = 0
   Statuses = {400, 401, 403, 404, 416, 418, 429, 500, 503, 599}
+  SweepStatuses <- SweepAll
   Kinds = {"BODY", "HEAD"}
   Export = TRUE
 INVARIANTS Emit
